@@ -123,10 +123,31 @@ def untyped_lit(v):
     raise TypeError(v)
 
 
-def insert_variables(c, m, t, lit, vars_out, p=40, top=True):
+def unwrap_singletons(c, m, t, lit, p=60):
+    """Write some one-element list literals as the bare element (input coercion wraps it again).
+
+    Legal exactly when the element is neither ``null`` (a bare null is the null list) nor a variable
+    (a variable of the item type is not allowed in a list position)."""
+    m = as_model(m)
+    tt = nullable(t) if is_nn(t) else t
+    if not isinstance(tt, str):
+        if lit["k"] == "list":
+            vs = [unwrap_singletons(c, m, tt[1], x, p) for x in lit["vs"]]
+            if len(vs) == 1 and vs[0]["k"] not in ("null", "var") and c.chance(p):
+                return vs[0]
+            return {"k": "list", "vs": vs}
+        return lit if lit["k"] in ("null", "var") else unwrap_singletons(c, m, tt[1], lit, p)
+    if lit["k"] == "obj" and m.kind(tt) == "input":
+        ft = {f["name"]: f["type"] for f in m.get(tt)["fields"]}
+        return {"k": "obj", "fs": [[n, unwrap_singletons(c, m, ft[n], x, p) if n in ft else x]
+                                   for n, x in lit["fs"]]}
+    return lit
+
+
+def insert_variables(c, m, t, lit, vars_out, p=40, top=True, bare_item=False):
     """Replace some sub-literals by variables; records {name: type} in vars_out."""
     m = as_model(m)
-    if c.chance(p) and len(vars_out) < 3:
+    if not bare_item and c.chance(p) and len(vars_out) < 3:
         name = f"v{len(vars_out)}"
         # declared type: the position's type, sometimes its non-null version
         vt = t if (is_nn(t) or not c.chance(80)) else ["nn", t]
@@ -136,6 +157,9 @@ def insert_variables(c, m, t, lit, vars_out, p=40, top=True):
     if lit["k"] == "list" and not isinstance(tt, str):
         return {"k": "list", "vs": [insert_variables(c, m, tt[1], x, vars_out, p, False)
                                     for x in lit["vs"]]}
+    if not isinstance(tt, str) and lit["k"] not in ("null", "var"):
+        # a bare element standing for a list of one: a variable may not replace the element itself
+        return insert_variables(c, m, tt[1], lit, vars_out, p, False, bare_item=True)
     if lit["k"] == "obj" and isinstance(tt, str) and m.kind(tt) == "input":
         ft = {f["name"]: f["type"] for f in m.get(tt)["fields"]}
         return {"k": "obj", "fs": [[n, insert_variables(c, m, ft.get(n, "Int"), x, vars_out, p, False)]
